@@ -1,7 +1,7 @@
 #!/bin/bash
 # usage: tools/seed2_verify.sh ID 'command (run from the worktree) that builds+runs the demonstration; exit 0 = pass'
 # later-round seeds: ROUND=2 (default): scratch worktree /tmp/seed2-ID, stored as /verif/seeded/IDb; ROUND=3: /tmp/seed3-ID -> /verif/seeded/IDc
-ID=$1; CMD=$2; ROUND=${ROUND:-2}; SUF=b; [ "$ROUND" = 3 ] && SUF=c; D=/tmp/seed$ROUND-$ID; cd $D || exit 3
+ID=$1; CMD=$2; ROUND=${ROUND:-2}; SUF=b; [ "$ROUND" = 3 ] && SUF=c; [ "$ROUND" = 4 ] && SUF=d; D=/tmp/seed$ROUND-$ID; cd $D || exit 3
 [ -f SEED/patch.diff ] || { echo "no patch"; exit 3; }
 git checkout -q -- src
 cmake -G Ninja -B _build -DCMAKE_BUILD_TYPE=Release . >/dev/null 2>&1; cmake --build _build -j8 >/dev/null 2>&1 || { echo "ORIGINAL BUILD FAILED"; exit 3; }
